@@ -155,6 +155,11 @@ _Reset.active_low_signal = lambda self: None
 I.register_model(_Reset.is_async, lambda it, self: self.fields["f_async"])
 I.register_model(_Reset.active_high_signal, lambda it, self: self.fields["f_high"])
 I.register_model(_Reset.active_low_signal, lambda it, self: sym.Not(self.fields["f_high"]))
+# the parent's own polarity is arbitrary and must not matter: the derived reset has the REQUESTED polarity
+_Reset.is_active_low = lambda self: None
+_Reset.is_active_high = lambda self: None
+I.register_model(_Reset.is_active_low, lambda it, self: self.fields["f_low"])
+I.register_model(_Reset.is_active_high, lambda it, self: sym.Not(self.fields["f_low"]))
 
 
 class _CSig:
@@ -182,7 +187,7 @@ def _cond_fn():
     pass
 
 
-def or_reset_spec(parent, requested, active_low):
+def or_reset_spec(parent, requested, active_low, which="or"):
     def spec(sx, self, **kw):
         it = sx.it
         real = sx.real_args[0]
@@ -207,7 +212,11 @@ def or_reset_spec(parent, requested, active_low):
             else:
                 high = real.fields["_reset"].fields["f_high"]
                 # in reset when either source is: active-high reading is (parent high) or expr; active-low: (not parent high) and expr
-                want = sym.And(sym.Not(high), e) if active_low else sym.Or(high, e)
+                if which == "or":
+                    want = sym.And(sym.Not(high), e) if active_low else sym.Or(high, e)
+                else:
+                    # and_reset: in reset only when BOTH sources are: active-low reading (not parent) or expr, active-high parent and expr
+                    want = sym.Or(sym.Not(high), e) if active_low else sym.And(high, e)
                 ok_val = sym.is_sym(driven) and it.ctx.entails(driven == want)
             return bool(ok_async) and bool(ok_val) and r.fields["active_low"] == active_low and res.fields["f_clk"] == "CLK"
 
@@ -216,18 +225,18 @@ def or_reset_spec(parent, requested, active_low):
     return spec
 
 
-con = contract("cohdl.std._context:SequentialContext.or_reset", PROPS)
-for parent in (False, True):
-    for requested in (None, True, False):
-        for active_low in (False, True):
+for which, parent, requested, active_low in [(w, p, r, a) for w in ("or", "and") for p in (False, True) for r in (None, True, False) for a in (False, True)]:
+    con = contract(f"cohdl.std._context:SequentialContext.{which}_reset", PROPS)
+    if True:
+        if True:
             def mk_self(env, parent=parent):
-                r = SObj(_Reset, f_async=None, f_high=None) if parent else None
+                r = SObj(_Reset, f_async=None, f_high=None, f_low=None) if parent else None
                 return SObj(SC.SequentialContext, _clk="CLK", _reset=r, _attributes={"a": 1})
 
             kw = {"expr": VAL(_cond_fn, "expr"), "active_low": VAL(active_low, repr(active_low))}
             if requested is not None:
                 kw["is_async"] = VAL(requested, repr(requested))
-            c = Case(f"{'parent-reset' if parent else 'no-parent-reset'},is_async={requested},active_low={active_low}", [Built([], mk_self, lambda a: "<ctx>", lambda a: None)], or_reset_spec(parent, requested, active_low), kwargs=kw)
+            c = Case(f"{'parent-reset' if parent else 'no-parent-reset'},is_async={requested},active_low={active_low}", [Built([], mk_self, lambda a: "<ctx>", lambda a: None)], or_reset_spec(parent, requested, active_low, which), kwargs=kw)
             c.native = False
             c.models = [(SC.concurrent, _concurrent), (_cond_fn, lambda it: it.expr_value)]
             c.interp_flags = {"class_call_models": {
@@ -240,6 +249,7 @@ for parent in (False, True):
                 if parent:
                     args[0].fields["_reset"].fields["f_async"] = ctx.fresh_bool("parent_async")
                     args[0].fields["_reset"].fields["f_high"] = ctx.fresh_bool("parent_active")
+                    args[0].fields["_reset"].fields["f_low"] = ctx.fresh_bool("parent_declared_active_low")
 
             c.setup = setup
             con.cases.append(c)
@@ -250,8 +260,51 @@ def _signal_subscript(it, cls, key):
 
 
 def _signal_ctor(it, cls, *args, **kw):
-    return SObj(_CSig)
+    return SObj(_CSig, f_args=list(args), f_kw=dict(kw))
 
 
 I.SUBSCRIPT_MODELS.setdefault(TypeQualifier, _signal_subscript)
 I.CTOR_MODELS.setdefault(TypeQualifier, _signal_ctor)
+
+
+# ---- std.NoresetSignal / std.NoresetVariable: composite types pass the NORESET qualifier on to their members -----------------
+from cohdl.std import _core_utility as CU  # noqa: E402
+from cohdl._core import _primitive_type as PT  # noqa: E402
+
+I.register_inline(PT.is_primitive_type)
+
+
+class _Composite:
+    """a Record / std.Array like type: its members are created with the qualifier it is given"""
+
+
+def noreset_spec(qcls, composite):
+    def spec(sx, self, *args, **kw):
+        def holds(res):
+            if composite:
+                if not (isinstance(res, SObj) and res.kind is _Composite):
+                    return False
+                q = res.fields["f_kw"].get("_qualifier_")
+                # the members must again be created through a noreset qualifier of the same kind (which marks
+                # primitives noreset=True): handing on the plain Signal / Variable qualifier loses the mark
+                return isinstance(q, SObj) and q.kind is qcls and res.fields["f_args"] == ["INIT"]
+            return isinstance(res, SObj) and res.kind is _CSig and res.fields.get("f_kw", {}).get("noreset") is True
+
+        return C.Pred(holds, "composite: members get the noreset qualifier; primitive: qualified object with noreset=True")
+
+    return spec
+
+
+con = contract("cohdl.std._core_utility:_Noreset.__call__", PROPS)
+for qcls in (CU._NoresetSignal, CU._NoresetVariable):
+    for composite in (True, False):
+        T = _Composite if composite else cohdl.Bit
+        c = Case(f"{qcls.__name__},{'composite' if composite else 'primitive'}", [Built([], (lambda qcls, T: lambda env: SObj(qcls, _T=T))(qcls, T), lambda a: "None", lambda a: None), VAL("INIT", "'INIT'")], noreset_spec(qcls, composite))
+        c.native = False
+        c.interp_flags = {"class_call_models": {
+            _Composite: lambda it, args, kw: SObj(_Composite, f_args=list(args), f_kw=dict(kw)),
+            CU._NoresetSignal: lambda it, args, kw: SObj(CU._NoresetSignal, _T=args[0] if args else None),
+            CU._NoresetVariable: lambda it, args, kw: SObj(CU._NoresetVariable, _T=args[0] if args else None),
+        }}
+
+        con.cases.append(c)
